@@ -150,9 +150,74 @@ fn exec_list(keyed: bool, lists: &[Vec<Item>]) -> (String, Option<String>, bool)
     (out.join(" | "), verdict, lists.len() > 1)
 }
 
+/// `dom keyeddyn|indexeddyn <ev;ev;…>` with `ev` = `l<list>` (set the list) or `t<v>` (write the toggle):
+/// every item view is a dynamic view at its top level (no wrapping element), switching on the toggle
+fn exec_list_dyn(keyed: bool, evs: &[&str]) -> (String, Option<String>, bool) {
+    domutil::reset_document();
+    let container = domutil::container("main");
+    let mut out = vec![];
+    let mut verdict: Option<String> = None;
+    let sigs: Rc<RefCell<Option<(Signal<Vec<Item>>, Signal<u32>)>>> = Default::default();
+    let (s2, cont2) = (sigs.clone(), container.clone());
+    let root = create_root(move || {
+        let list = create_signal(Vec::<Item>::new());
+        let toggle = create_signal(0u32);
+        *s2.borrow_mut() = Some((list, toggle));
+        let view_fn = move |it: Item| {
+            let k = it.0.to_string();
+            View::from_dynamic(move || {
+                let (ka, kb) = (k.clone(), k.clone());
+                if toggle.get() % 2 == 0 {
+                    view! { li(data-k=ka) { "even" } }
+                } else {
+                    view! { b(data-k=ka) { "odd" } i(data-k=kb) }
+                }
+            })
+        };
+        let v: View = if keyed {
+            view! { div { "pre" Keyed(list=list, view=view_fn, key=|it: &Item| it.0) "post" } }
+        } else {
+            view! { div { "pre" Indexed(list=list, view=view_fn) "post" } }
+        };
+        sycamore::web::render_in_scope(move || v, cont2.unchecked_ref());
+    });
+    let parent: Node = container.first_child().expect("div");
+    let (list, toggle) = sigs.borrow().unwrap();
+    let mut cur_list: Vec<Item> = vec![];
+    let mut cur_t = 0u32;
+    for e in evs {
+        let r = if let Some(l) = e.strip_prefix('l') { let l = parse_lists(l).remove(0); cur_list = l.clone(); catch(|| list.set(l)) }
+                else { let v: u32 = e[1..].parse().unwrap(); cur_t = v; catch(|| toggle.set(v)) };
+        if let Err(m) = r { out.push("panic".into()); verdict.get_or_insert(format!("[dom-list-panic] event {e} panicked: {m}")); break; }
+        // shape of the region
+        let mut parts = vec![];
+        let mut n = parent.first_child();
+        while let Some(x) = n {
+            parts.push(match x.node_type() {
+                1 => { let el: &web_sys::Element = x.unchecked_ref(); format!("{}{}", el.tag_name().to_lowercase(), el.get_attribute("data-k").unwrap_or_default()) }
+                3 => format!("T{}", x.text_content().unwrap_or_default()),
+                _ => "M".to_string(),
+            });
+            n = x.next_sibling();
+        }
+        let obs = parts.join(",");
+        // oracle: what a fresh render of (list, toggle) looks like
+        let mut want = vec!["Tpre".to_string(), "M".to_string()];
+        for it in &cur_list { want.push("M".into()); if cur_t % 2 == 0 { want.push(format!("li{}", it.0)); } else { want.push(format!("b{}", it.0)); want.push(format!("i{}", it.0)); } want.push("M".into()); }
+        want.push("M".into()); want.push("Tpost".into());
+        let want = want.join(",");
+        if obs != want { verdict.get_or_insert(format!("[dom-list-stale-item] after event {e}: the list region is `{obs}`, a fresh render of the current state gives `{want}`")); }
+        out.push(obs);
+    }
+    let _ = catch(|| root.dispose());
+    (out.join(" | "), verdict, evs.len() > 1)
+}
+
 pub fn exec(line: &str) -> (String, Option<String>, bool) {
     let t: Vec<&str> = line.split(' ').collect();
     match t[1] {
+        "keyeddyn" => exec_list_dyn(true, &t[2].split(';').collect::<Vec<_>>()),
+        "indexeddyn" => exec_list_dyn(false, &t[2].split(';').collect::<Vec<_>>()),
         "reconcile" => exec_reconcile(&t[2..]),
         "keyed" => exec_list(true, &parse_lists(t[2])),
         "indexed" => exec_list(false, &parse_lists(t[2])),
@@ -209,6 +274,12 @@ pub fn generate(args: &Args) -> Vec<String> {
             if v.is_empty() { "-".to_string() } else { v.iter().map(|(k, p)| format!("{k}.{p}")).collect::<Vec<_>>().join(",") }
         }).collect();
         l.push(format!("dom {} {}", if i % 3 == 2 { "indexed" } else { "keyed" }, chain.join(";")));
+        // the same chain with item views that are dynamic at their top level, toggled in between
+        if i % 4 == 0 && !dup {
+            let mut evs: Vec<String> = vec![];
+            for c in &chain { evs.push(format!("l{c}")); if rng.chance(1, 2) { evs.push(format!("t{}", rng.below(4))); } }
+            l.push(format!("dom {} {}", if i % 8 == 0 { "indexeddyn" } else { "keyeddyn" }, evs.join(";")));
+        }
     }
     l
 }
